@@ -1,0 +1,21 @@
+//go:build !verif
+
+package arp_spoofer
+
+import (
+	"time"
+
+	"github.com/irai/packet"
+)
+
+// No-op counterparts of the verification hooks (see verif_on.go); inlined away.
+
+func verifEmit(ev string, kv ...interface{}) {}
+
+func verifGate(name string, loop int) {}
+
+func verifTicker(c <-chan time.Time, loop int) <-chan time.Time { return c }
+
+func verifLoopStart(addr packet.Addr) int { return 0 }
+
+func verifLoopDone(loop int) {}
